@@ -218,7 +218,14 @@ def _build_harness():
     ov = os.path.join(WORK, "overlay.json")
     json.dump({"Replace": overlay_map()}, open(ov, "w"))
     shutil.copyfile(os.path.join(REPO, "go.sum"), os.path.join(ROOT, "go", "go.sum"))
-    cmd = "go build -tags verif -overlay %s -o %s ./cmd/vh" % (ov, os.path.join(WORK, "bin", "vh"))
+    modfile = ""
+    if REPO != "/repo":
+        # development aid (seeded changes in a scratch worktree): same module file with the replace directive pointing at VERIF_REPO
+        mf = os.path.join(WORK, "alt.mod")
+        open(mf, "w").write(open(os.path.join(ROOT, "go", "go.mod")).read().replace("=> /repo", "=> " + REPO))
+        shutil.copyfile(os.path.join(REPO, "go.sum"), os.path.join(WORK, "alt.sum"))
+        modfile = "-modfile=%s " % mf
+    cmd = "go build %s-tags verif -overlay %s -o %s ./cmd/vh" % (modfile, ov, os.path.join(WORK, "bin", "vh"))
     rc, out = sh(cmd, cwd=os.path.join(ROOT, "go"), env=GOENV, timeout=900)
     return rc == 0, out
 
